@@ -197,20 +197,23 @@ pub struct P2Cfg {
     pub throttle: bool,
     /// fourth alphabet: two DNS queries with staggered starts against a reachable server
     pub dnsq: bool,
+    /// the interface has no IPv4 address at all (datagrams to IPv4 destinations find no source)
+    pub no_v4: bool,
 }
 
 pub fn p2_configs() -> Vec<P2Cfg> {
     vec![
-        P2Cfg { name: "iface", slaac: false, dhcp: false, mtu: 1500, served: false, more: false, throttle: false, dnsq: false },
-        P2Cfg { name: "iface-frag", slaac: false, dhcp: false, mtu: 120, served: false, more: false, throttle: false, dnsq: false },
-        P2Cfg { name: "iface-dhcp", slaac: false, dhcp: true, mtu: 1500, served: false, more: false, throttle: false, dnsq: false },
-        P2Cfg { name: "iface-dhcp-served", slaac: false, dhcp: true, mtu: 1500, served: true, more: false, throttle: false, dnsq: false },
-        P2Cfg { name: "iface-more", slaac: false, dhcp: false, mtu: 1500, served: false, more: true, throttle: false, dnsq: false },
-        P2Cfg { name: "iface-slaac-more", slaac: true, dhcp: false, mtu: 1500, served: false, more: true, throttle: false, dnsq: false },
-        P2Cfg { name: "iface-frag-throttle", slaac: false, dhcp: false, mtu: 120, served: false, more: false, throttle: true, dnsq: false },
-        P2Cfg { name: "iface-dns-two-queries", slaac: false, dhcp: false, mtu: 1500, served: false, more: false, throttle: false, dnsq: true },
-        P2Cfg { name: "iface-slaac", slaac: true, dhcp: false, mtu: 1500, served: false, more: false, throttle: false, dnsq: false },
-        P2Cfg { name: "iface-slaac-frag", slaac: true, dhcp: false, mtu: 120, served: false, more: false, throttle: false, dnsq: false },
+        P2Cfg { name: "iface", slaac: false, dhcp: false, mtu: 1500, served: false, more: false, throttle: false, dnsq: false, no_v4: false },
+        P2Cfg { name: "iface-frag", slaac: false, dhcp: false, mtu: 120, served: false, more: false, throttle: false, dnsq: false, no_v4: false },
+        P2Cfg { name: "iface-dhcp", slaac: false, dhcp: true, mtu: 1500, served: false, more: false, throttle: false, dnsq: false, no_v4: false },
+        P2Cfg { name: "iface-dhcp-served", slaac: false, dhcp: true, mtu: 1500, served: true, more: false, throttle: false, dnsq: false, no_v4: false },
+        P2Cfg { name: "iface-more", slaac: false, dhcp: false, mtu: 1500, served: false, more: true, throttle: false, dnsq: false, no_v4: false },
+        P2Cfg { name: "iface-slaac-more", slaac: true, dhcp: false, mtu: 1500, served: false, more: true, throttle: false, dnsq: false, no_v4: false },
+        P2Cfg { name: "iface-frag-throttle", slaac: false, dhcp: false, mtu: 120, served: false, more: false, throttle: true, dnsq: false, no_v4: false },
+        P2Cfg { name: "iface-dns-two-queries", slaac: false, dhcp: false, mtu: 1500, served: false, more: false, throttle: false, dnsq: true, no_v4: false },
+        P2Cfg { name: "iface-more-no-ipv4", slaac: false, dhcp: false, mtu: 1500, served: false, more: true, throttle: false, dnsq: false, no_v4: true },
+        P2Cfg { name: "iface-slaac", slaac: true, dhcp: false, mtu: 1500, served: false, more: false, throttle: false, dnsq: false, no_v4: false },
+        P2Cfg { name: "iface-slaac-frag", slaac: true, dhcp: false, mtu: 120, served: false, more: false, throttle: false, dnsq: false, no_v4: false },
     ]
 }
 
@@ -225,6 +228,12 @@ pub enum P2Ev {
     DnsQuery,
     /// a second, different DNS query (two pending queries in one socket, staggered timers)
     DnsQueryB,
+    /// two datagrams to the resolved peer queued by the application before it polls
+    UdpTwoToResolved,
+    /// two echo requests to an IPv4 host queued on the icmp socket before the poll
+    IcmpTwoToV4,
+    /// two raw packets whose protocol field is not the raw socket's, queued before the poll
+    RawTwoWrongProto,
     /// a `.local` query: sent to the two mDNS groups one after the other (a two-"server" query
     /// even where only one unicast server can be configured)
     DnsQueryLocal,
@@ -398,6 +407,31 @@ impl P2 {
                 let s = self.sockets.get_mut::<dns::Socket>(self.dns);
                 let _ = s.start_query(cx, "b.example", smoltcp::wire::DnsQueryType::A);
             }
+            P2Ev::UdpTwoToResolved => {
+                let s = self.sockets.get_mut::<udp::Socket>(self.udp);
+                let _ = s.send_slice(b"one", (IpAddress::v4(192, 168, 1, 2), 9000));
+                let _ = s.send_slice(b"two", (IpAddress::v4(192, 168, 1, 2), 9000));
+            }
+            P2Ev::IcmpTwoToV4 => {
+                use smoltcp::wire::*;
+                for seq in 1..=2u16 {
+                    let r = Icmpv4Repr::EchoRequest { ident: 0x1234, seq_no: seq, data: b"ping" };
+                    let s = self.sockets.get_mut::<icmp::Socket>(self.icmp);
+                    if let Ok(b) = s.send(r.buffer_len(), IpAddress::v4(192, 168, 1, 2)) {
+                        r.emit(&mut Icmpv4Packet::new_unchecked(b), &smoltcp::phy::ChecksumCapabilities::default());
+                    }
+                }
+            }
+            P2Ev::RawTwoWrongProto => {
+                use smoltcp::wire::*;
+                for _ in 0..2 {
+                    let ip = Ipv4Repr { src_addr: Ipv4Address::new(192, 168, 1, 1), dst_addr: Ipv4Address::new(192, 168, 1, 2), next_header: IpProtocol::Unknown(254), payload_len: 4, hop_limit: 64 };
+                    let mut b = [0u8; 24];
+                    ip.emit(&mut Ipv4Packet::new_unchecked(&mut b[..]), &smoltcp::phy::ChecksumCapabilities::default());
+                    let s = self.sockets.get_mut::<raw::Socket>(self.raw);
+                    let _ = s.send_slice(&b);
+                }
+            }
             P2Ev::DnsQueryLocal => {
                 let cx = self.iface.context();
                 let s = self.sockets.get_mut::<dns::Socket>(self.dns);
@@ -530,7 +564,9 @@ impl Harness for P2 {
         c.random_seed = 7;
         let mut iface = Interface::new(c, &mut dev, Instant::from_micros(0));
         iface.update_ip_addrs(|a| {
-            a.push(IpCidr::new(IpAddress::v4(192, 168, 1, 1), 24)).unwrap();
+            if !cfg.no_v4 {
+                a.push(IpCidr::new(IpAddress::v4(192, 168, 1, 1), 24)).unwrap();
+            }
             a.push(IpCidr::new(IpAddress::Ipv6(Ipv6Address::new(0xfe80, 0, 0, 0, 0, 0, 0, 1)), 64)).unwrap();
         });
         iface.routes_mut().add_default_ipv4_route(Ipv4Address::new(192, 168, 1, 2)).unwrap();
@@ -629,6 +665,12 @@ impl Harness for P2 {
                 (P2Ev::IcmpToUnresolved, 0),
                 (P2Ev::RawToPeer, 0),
             ];
+            if self.cfg.no_v4 {
+                v.push((P2Ev::UdpToResolved, 0));
+                v.push((P2Ev::UdpTwoToResolved, 0));
+                v.push((P2Ev::IcmpTwoToV4, 0));
+            }
+            v.push((P2Ev::RawTwoWrongProto, 0));
             match self.sockets.get::<tcp::Socket>(self.tcp).state() {
                 tcp::State::Closed => v.push((P2Ev::TcpConnectPeer, 0)),
                 _ => v.push((P2Ev::TcpAbort, 0)),
@@ -700,6 +742,12 @@ impl P2 {
         }
         if format!("{:?}", self.sockets.get::<dns::Socket>(self.dns)).contains("Pending") {
             c.push("dns-pending");
+        }
+        if self.sockets.get::<icmp::Socket>(self.icmp).send_queue() > 0 {
+            c.push("icmp-queued");
+        }
+        if self.sockets.get::<raw::Socket>(self.raw).send_queue() > 0 {
+            c.push("raw-queued");
         }
         if self.cfg.dhcp {
             c.push("dhcp");
